@@ -34,7 +34,7 @@ RULE = (
     "vertices, links and universes drawn from scalars (ints incl. > 2^63, floats incl. nan/inf/-0.0, str, bytes, "
     "bool, None, str/bytes/bytearray payloads above 64 KiB), lists/dicts/tuples/sets nested to depth 3, dicts keyed by / sets of graph objects, references to graph objects and a pool of SHARED "
     "containers attached to several holders; graphs queried before pickling (full battery: warm neighbor caches and any other memo queries may leave); root in {universe, vertex, link, list of "
-    "everything, dict}; protocols 0..5; dumps vs dump(file); loader pickle or dill; caching flag on/off at dump and "
+    "everything, dict}; protocols 0..5; dumps vs dump(file) into a BytesIO or a real buffered file; loader pickle or dill; caching flag on/off at dump and "
     "at load.  Oracle: canonical(copy) == canonical(original) (classes by qualified name, uids, attribute names "
     "and values, ordered links/ends/members, sharing), no object identity in common, mutating the copy leaves the "
     "original's canonical form unchanged, the query battery on the copy equals the one on the original (flag on), "
@@ -282,6 +282,19 @@ def pick_root(w, sel):
 def dump_bytes(root, proto, via_file):
     from edgegraph.output import nrpickler
 
+    if via_file and proto % 2:
+        # dump() into a real (buffered) file on disk, read back after closing
+        import os
+        import tempfile
+
+        fd, path = tempfile.mkstemp(prefix="eg_c10_", suffix=".pickle")
+        try:
+            with os.fdopen(fd, "wb") as f:
+                nrpickler.dump(root, f, protocol=proto)
+            with open(path, "rb") as f:
+                return f.read()
+        finally:
+            os.unlink(path)
     if via_file:
         f = io.BytesIO()
         nrpickler.dump(root, f, protocol=proto)
